@@ -283,19 +283,22 @@ example : k1Check exDev exTgt exScripts = true := by decide
 
 Class K2 (`k2Check`, one decidable predicate over the two configurations and the Myers scripts, evaluated by the
 driver on every generated case): several access-group commands (in/out, several interfaces); commands of
-interfaces unknown to the target stay (`markNeeded`); the compared commands of device and target sit at the
-same (direction, interface) places (`bindsShape`: no command is added or removed); every pair of bound access
-lists goes through ANY of the four branches of `diffCmds` for access lists (device ACL already `needed` →
-transfer; target ACL already `ready`; no parts equal → `markDeleted` + transfer of a new ACL and re-binding;
-incremental `diffASAACLs` with the counted hypothesis `hyp:ok`), object-groups shared between lines and
-access lists in any way; routes with pairwise different destinations per side (add, remove, replace);
-`deleteUnused` with cleared access lists and removed groups.
-Outside: access-group commands added/removed by the target (`bind:*` branches other than `changed-ref`),
-runs with `hyp:no-kept-line` / `hyp:duplicate-text` (F-C08a), two device routes to one destination. -/
+interfaces unknown to the target stay (`markNeeded`); the compared commands go through `diffCmds` of the
+anchors in either branch — "some parts equal": slices of device commands removed (`no access-group`,
+`markDeleted`), target commands added at new places (`addCmds`), kept pairs equalised (`makeEqual`); "no parts
+equal": every device command marked and removed by `deleteUnused` (`du:no-access-group`), every target command
+added; every pair of bound access lists goes through ANY of the four branches of `diffCmds` for access lists
+(device ACL already `needed` → transfer; target ACL already `ready`; no parts equal → `markDeleted` + transfer
+of a new ACL and re-binding; incremental `diffASAACLs` with the counted hypothesis `hyp:ok`), object-groups
+shared between lines and access lists in any way; routes with pairwise different destinations per side (add,
+remove, replace); `deleteUnused` with removed access-group commands, cleared access lists and removed groups.
+Outside: runs with `hyp:no-kept-line` / `hyp:duplicate-text` (F-C08a); two device routes to one prefix
+(`two_routes_one_prefix_outside_spec`). -/
 
 /-- **`asa_F1_converges`** — END TO END for class K2: the WHOLE script printed by the engine is accepted by the
-strict device started on the device configuration, and the resulting device carries the target: interfaces
-and the places of access-group commands as before; at every place named by the target an access list is bound
+strict device started on the device configuration, and the resulting device carries the target: interfaces as
+before; an access-group command only at a place named by the target or at a place of an interface unknown to
+the target; at every place named by the target an access list is bound
 that has the target's length and, position by position, the target's text up to group names, every referenced
 group existing with exactly the target group's members; the routes are the target's routes as a set (if the
 target has none, the old ones stay). -/
@@ -386,6 +389,40 @@ example : (engine ex2Dev ex2Tgt ex2Scripts).map (fun r => showChanges r.script) 
     "access-group outside_in2-DRC-0 in interface outside", "route inside 10.8.0.0 255.255.0.0 10.1.1.253",
     "no route inside 10.9.0.0 255.255.0.0 10.1.1.254\\N route inside 10.9.0.0 255.255.0.0 10.1.1.253",
     "clear configure access-list outside_in"] := by decide
+
+/-- Non-vacuity for the other branches of the anchors: an access-group command removed and one added at a new
+place (`bind:del`, `bind:add`); and "no parts equal" (both commands replaced, `du:no-access-group`). -/
+def ex5Dev : Config :=
+  { intfs := ["inside", "dmz"], groups := [("g1", ["host 10.1.1.1"])],
+    acls := [("inside_in", [xLine "tcp" "22" "g1"]), ("dmz_in", [xLine "tcp" "25" "g1"])],
+    binds := [⟨"inside_in", "in", "inside"⟩, ⟨"dmz_in", "in", "dmz"⟩] }
+def ex5Tgt : Config :=
+  { groups := [("g1", ["host 10.1.1.1"])],
+    acls := [("inside_in", [xLine "tcp" "22" "g1"]), ("dmz_out", [xLine "udp" "53" "g1"])],
+    binds := [⟨"inside_in", "in", "inside"⟩, ⟨"dmz_out", "out", "dmz"⟩] }
+def ex5Scripts : Scripts := { acl := [(("inside_in", "inside_in"), [⟨0, 1, 0, 1⟩])], grp := [(("g1", "g1"), [⟨0, 1, 0, 1⟩])] }
+def ex6Tgt : Config :=
+  { groups := [("g1", ["host 10.1.1.1"])],
+    acls := [("inside_out", [xLine "tcp" "22" "g1"]), ("dmz_out", [xLine "udp" "53" "g1"])],
+    binds := [⟨"inside_out", "out", "inside"⟩, ⟨"dmz_out", "out", "dmz"⟩] }
+
+example : k2Check ex5Dev ex5Tgt ex5Scripts = true ∧
+    (engine ex5Dev ex5Tgt ex5Scripts).map (fun r => showChanges r.script) = some [
+      "no access-group dmz_in in interface dmz",
+      "access-list dmz_out-DRC-0 extended permit udp object-group g1 any4 eq 53",
+      "access-group dmz_out-DRC-0 out interface dmz", "clear configure access-list dmz_in"] := by
+  constructor <;> decide
+
+example : k2Check ex5Dev ex6Tgt ex5Scripts = true ∧
+    (engine ex5Dev ex6Tgt ex5Scripts).map (fun r => showChanges r.script) = some [
+      "object-group network g1-DRC-0", "network-object host 10.1.1.1",
+      "access-list inside_out-DRC-0 extended permit tcp object-group g1-DRC-0 any4 eq 22",
+      "access-group inside_out-DRC-0 out interface inside",
+      "access-list dmz_out-DRC-0 extended permit udp object-group g1-DRC-0 any4 eq 53",
+      "access-group dmz_out-DRC-0 out interface dmz", "no access-group inside_in in interface inside",
+      "no access-group dmz_in in interface dmz", "clear configure access-list dmz_in",
+      "clear configure access-list inside_in", "no object-group network g1"] := by
+  constructor <;> decide
 
 /-- Non-vacuity of `asa_F1_unchanged_only_if_equivalent`: target = device (own names, identity scripts) is in
 class K2 and the engine prints nothing. -/
@@ -618,6 +655,27 @@ theorem two_routes_one_prefix_outside_spec :
     k2Check exR2Dev exR2Tgt {} = false := by
   constructor <;> decide
 
+/-! ### Class K2 is not closed under executing a prefix of its own script
+
+`asa_F1_resume` without a hypothesis on the interrupted state cannot be obtained from closure of the class:
+(1) the Myers scripts of the NEW comparison are parameters of the model, and the run hypothesis `hyp:ok` (a kept
+line keeps its references) is a property of those scripts; (2) the class itself is not closed — here the
+target asks for a second route to a prefix over another interface; after the first command the device holds
+two routes to one prefix, which `routesCheck` excludes (see `two_routes_one_prefix_outside_spec`).  The resumed
+run from that state is nevertheless accepted (oracle, and below).  Measured by the harness on every cut state of
+every K2 run (`resume-cut-of-a-K2-run:k2=…`): quick 694 of 704 cut states are in K2 again, the other 10 for this
+reason only. -/
+def ex7Dev : Config := { intfs := ["inside", "outside"], routes := [⟨"inside 10.0.0.0 255.0.0.0 10.1.1.1", "10.0.0.0/8", 120⟩, ⟨"outside 0.0.0.0 0.0.0.0 1.1.1.1", "0.0.0.0/0", 128⟩] }
+def ex7Tgt : Config := { routes := [⟨"inside 10.0.0.0 255.0.0.0 10.1.1.1", "10.0.0.0/8", 120⟩, ⟨"outside 10.0.0.0 255.0.0.0 1.1.1.2", "10.0.0.0/8", 120⟩, ⟨"outside 0.0.0.0 0.0.0.0 1.1.1.9", "0.0.0.0/0", 128⟩] }
+def ex7Cut : Config := { intfs := ["inside", "outside"], routes := [⟨"inside 10.0.0.0 255.0.0.0 10.1.1.1", "10.0.0.0/8", 120⟩, ⟨"outside 0.0.0.0 0.0.0.0 1.1.1.1", "0.0.0.0/0", 128⟩, ⟨"outside 10.0.0.0 255.0.0.0 1.1.1.2", "10.0.0.0/8", 120⟩] }
+
+theorem k2_not_closed_under_prefix :
+    k2Check ex7Dev ex7Tgt {} = true ∧
+    (engine ex7Dev ex7Tgt {}).map (fun r => exec (ofConfig ex7Dev) (r.script.take 1) == some (ofConfig ex7Cut)) = some true ∧
+    k2Check ex7Cut ex7Tgt {} = false ∧
+    (engine ex7Cut ex7Tgt {}).map (fun r => (run (ofConfig ex7Cut) r.script).2) = some none := by
+  refine ⟨by decide, by decide, by decide, by decide⟩
+
 def obligations : List Lean.Name := [
   ``names_fresh, ``names_injective, ``findGroup_sound, ``findGroup_first,
   ``group_equalize_converges, ``group_edit_emits_memOps, ``group_needed_never_edited, ``group_edit_only_if_small,
@@ -629,6 +687,6 @@ def obligations : List Lean.Name := [
   ``asa_F1_iso_quiet, ``asa_F1_idempotent_partial,
   ``diffUnordered_computes, ``asa_routes_script_is_model, ``asa_routes_phases, ``asa_routes_covered_every_step,
   ``asa_F1_subcommands_in_own_mode, ``asa_F1_member_command_in_parent_mode, ``asa_F1_no_referenced_object_deleted,
-  ``two_routes_one_prefix_outside_spec]
+  ``two_routes_one_prefix_outside_spec, ``k2_not_closed_under_prefix]
 
 end NA.F1
